@@ -282,6 +282,13 @@ theorem partial_ops_all_classified : chunks.all chunkClassified = true := by dec
     `PartialOpsTable.provedTheorems` -/
 theorem partial_ops_invariants_named : chunks.all chunkNamed = true := by decide +kernel
 
+/-- every type assertion on a node that was found by its tag (`n.(*SexNode)` for `n` in
+    `NodesWithTag(node, TagSex)`, `CastTo`, `castNodesWithTag`) asserts the Go type that the decoder
+    gives that tag (Generated.kindTable, a decode probe per tag): the assertion cannot fail on a
+    decoded document -/
+theorem tag_asserts_sound :
+    tagAsserts.all (fun p => Resolve.tagKind (Resolve.bs p.1) == p.2) = true := by decide +kernel
+
 /-! each listed name is a theorem of this development (the build fails when one is missing) -/
 #check @eventDate_total
 #check @indexLetter_total
@@ -292,5 +299,6 @@ theorem partial_ops_invariants_named : chunks.all chunkNamed = true := by decide
 #check @surnameSlice_total
 #check @jurisdictionalEntities_total
 #check @monthAbbrev_total
+#check @tag_asserts_sound
 
 end Gedcom.C14
